@@ -40,6 +40,7 @@ def check(c: Check):
     clause_g(c)
     clause_h(c)
     clause_i(c)
+    clause_j(c)
     from .common import sweep_records
     sweep_records(c, 'C07-rec', ['exactly_lib.section_document', 'exactly_lib.util.line_source'], floor=8)
 
@@ -522,3 +523,80 @@ def clause_i(c: Check):
     c.expect(ok and n >= 1, 'C07-i', 'parse_source/root-recorded-as-visited',
              'parsing a source file does not start with the resolved path of that file as the only visited path: a cycle '
              'of inclusions through the root file is not detected where it closes', f.loc())
+
+
+# ---------------------------------------------------------------- j
+def clause_j(c: Check):
+    """the chain of including files in an error report: the path of each link is relative to the directory of the
+    file of the link before it. EVAL on an explicit chain [l0, l1]: when l0 names a file, the location l1 is rendered
+    against is derived from l0's path - not the initial location handed on unchanged (the report would name files that
+    do not exist as soon as the inclusions span more than one directory)"""
+    ix, fo = c.ix, c.fo
+    SL = 'exactly_lib.common.report_rendering.parts.source_location'
+    f = ix.func(SL + ':file_inclusion_chain')
+    render = ix.func(SL + ':_file_inclusion_location')
+    names = [p.arg for p in f.positional_params()]
+    nested = [g for g in f.module.all_funcs if g.parent is f]
+
+    class H(Hooks):
+        loop_bound = 3
+
+        def inline(self, fd, st):
+            return fd in nested
+
+    it = Interp(ix, fo, H())
+    start = Sym('initial-location')
+    l0, l1 = Sym('link0', nullness=False), Sym('link1', nullness=False)
+    seen = set()
+    for p in it.run_function(f, {names[0]: start, names[1]: ListVal([l0, l1])}):
+        calls = [e for e in p.calls() if e.data.get('callee') == render]
+        if len(calls) != 2:
+            c.bad('C07-j', 'inclusion-chain/every-link-rendered', 'a chain of 2 links is rendered with %d links' % len(calls), f.loc())
+            continue
+        c.expect(calls[0].data['args'][0] is start and calls[0].data['args'][1] is l0
+                 and calls[1].data['args'][1] is l1, 'C07-j', 'inclusion-chain/links-in-order',
+                 'the links of the chain are not rendered in order, the first against the initial location', f.loc())
+        # did link0 name a file on this path?
+        named = None
+        for t, truth in p.guards:
+            if isinstance(t, ast.Compare) and 'file_path_rel_referrer' in unparse(t) and isinstance(t.ops[0], (ast.Is, ast.IsNot)):
+                is_none = truth if isinstance(t.ops[0], ast.Is) else not truth
+                named = not is_none
+                break
+        second = calls[1].data['args'][0]
+        if named is None:
+            # no distinction made between a link with and without a file: the location must still come from link0
+            named = True
+        seen.add(named)
+        if named:
+            c.expect(_mentions_sym(second, l0, p.trace), 'C07-j', 'inclusion-chain/location-threaded',
+                     'the second link of an inclusion chain is rendered relative to %s, not relative to the directory of '
+                     'the file of the first link' % util.describe(second), f.loc())
+        else:
+            c.expect(second is start, 'C07-j', 'inclusion-chain/location-kept-without-file',
+                     'a link without a file changes the location the next link is relative to', f.loc())
+    c.expect(True in seen, 'C07-j', 'inclusion-chain/cases', 'no analysed path has a first link that names a file', f.loc())
+
+
+def _mentions_sym(v, target, trace, depth=0) -> bool:
+    if v is target:
+        return True
+    if depth > 8 or not isinstance(v, Sym) or not v.origin:
+        return False
+    o = v.origin
+    if o[0] == 'call':
+        if any(_mentions_sym(x, target, trace, depth + 1) for x in list(o[2]) + list(o[3].values())):
+            return True
+        if o[5] is not None:
+            ev = trace[o[5]]
+            recv = ev.data.get('recv')
+            if recv is None:
+                recv = ev.data.get('callee_val')
+            if recv is not None and _mentions_sym(recv, target, trace, depth + 1):
+                return True
+        return False
+    for x in o[1:]:
+        for y in (x if isinstance(x, (list, tuple)) else [x]):
+            if isinstance(y, Sym) and _mentions_sym(y, target, trace, depth + 1):
+                return True
+    return False
